@@ -244,18 +244,33 @@ def main(argv=None):
     return 0
 
 
+_REPLAY_CACHE = {}
+_REPLAY_BUDGET = [40]  # native replays per run (each is cached per contract case)
+
+
 def write_replay(rdir, prop, r, name, o, classes):
     """replay the counter-model natively through the contract's replay(); returns (path, suffix, fullname)"""
     cls = next((c for c in classes if c.name == r["contract"]), None)
     full = f"{r['contract']}[{r['case']}]::{name}"
     rep = None
     err = None
-    if cls is not None:
+    key = (r["contract"], r["case"], json.dumps(o.get("model"), sort_keys=True, default=str) if cls is not None and getattr(cls, "replay_uses_model", False) else "")
+    if key in _REPLAY_CACHE:
+        rep, err = _REPLAY_CACHE[key]
+    elif cls is not None and _REPLAY_BUDGET[0] > 0:
+        _REPLAY_BUDGET[0] -= 1
         try:
             case = next(dict(cs) for cs in cls.cases if cls().case_label(dict(cs)) == r["case"])
             rep = cls().replay(case, o)
         except Exception:
             err = traceback.format_exc()
+        _REPLAY_CACHE[key] = (rep, err)
+    elif cls is not None:
+        # budget used up: reuse any replay of the same contract
+        for (cn, _, _), v in _REPLAY_CACHE.items():
+            if cn == r["contract"] and v[0] is not None:
+                rep, err = v
+                break
     suffix = ""
     if not rep or not rep.get("confirmed"):
         suffix = "no-failing-input-found"
